@@ -779,4 +779,55 @@ example :
     (o2.map (fun o => o.slotLabels (.bottom 0))) = some ["g1", "g2"] ∧ (o2.bind (fun o => o.projectEdge 0 1 "g3")) = none ∧
       ((o2.bind (fun o => o.projectEdge 0 1 "g2")).map (fun o => o.slotLabels (.bottom 0))) = some ["g1", "g2"] := by decide
 
+/-! ### Round 6d: a revolved block is right-handed -/
+
+/-- the unit cube has Jacobian 1 at all eight corners (the neighbour table is in right-handed order) -/
+example : cornerNbrs.map (cornerJac (Aff.hex ⟨⟨1, 0, 0⟩, ⟨0, 1, 0⟩, ⟨0, 0, 1⟩, ⟨0, 0, 0⟩⟩).pts) = [1, 1, 1, 1, 1, 1, 1, 1] := by
+  decide +kernel
+
+/-- **`Revolve` about the x-axis of a face in the half-plane z = 0, y > 0** (the axisymmetric set-up of `Wedge` and of every
+    revolved shape): for every sweep angle in (0, π) — any `c`, any `s > 0` — and every base quad whose corners are at positive
+    distance from the axis and which is convex and counter-clockwise seen from the side the sweep goes to (planar cross product
+    `A i > 0` at each corner), the Jacobian at corner `i` of the base and at corner `i + 4` of the turned face both equal
+    `A i · y i · s`, hence all eight corner Jacobians are positive: the block is right-handed at every corner.
+    (A base lying in any other half-plane through any other axis is the image of this one under an isometry; that transport
+    is not proved.) -/
+theorem T_C10_revolve_right_handed (x0 y0 x1 y1 x2 y2 x3 y3 c s : Rat)
+    (hy0 : 0 < y0) (hy1 : 0 < y1) (hy2 : 0 < y2) (hy3 : 0 < y3) (hs : 0 < s)
+    (hA0 : 0 < (x1 - x0) * (y3 - y0) - (y1 - y0) * (x3 - x0)) (hA1 : 0 < (x2 - x1) * (y0 - y1) - (y2 - y1) * (x0 - x1))
+    (hA2 : 0 < (x3 - x2) * (y1 - y2) - (y3 - y2) * (x1 - x2)) (hA3 : 0 < (x0 - x3) * (y2 - y3) - (y0 - y3) * (x2 - x3)) :
+    let pts := revolvePoints [⟨x0, y0, 0⟩, ⟨x1, y1, 0⟩, ⟨x2, y2, 0⟩, ⟨x3, y3, 0⟩] c s ⟨1, 0, 0⟩ 1 V3.zero
+    cornerNbrs.map (cornerJac pts) =
+      [((x1 - x0) * (y3 - y0) - (y1 - y0) * (x3 - x0)) * y0 * s, ((x2 - x1) * (y0 - y1) - (y2 - y1) * (x0 - x1)) * y1 * s,
+       ((x3 - x2) * (y1 - y2) - (y3 - y2) * (x1 - x2)) * y2 * s, ((x0 - x3) * (y2 - y3) - (y0 - y3) * (x2 - x3)) * y3 * s,
+       ((x1 - x0) * (y3 - y0) - (y1 - y0) * (x3 - x0)) * y0 * s, ((x2 - x1) * (y0 - y1) - (y2 - y1) * (x0 - x1)) * y1 * s,
+       ((x3 - x2) * (y1 - y2) - (y3 - y2) * (x1 - x2)) * y2 * s, ((x0 - x3) * (y2 - y3) - (y0 - y3) * (x2 - x3)) * y3 * s] ∧
+    ∀ j ∈ cornerNbrs.map (cornerJac pts), 0 < j := by
+  intro pts
+  have hJ : cornerNbrs.map (cornerJac pts) =
+      [((x1 - x0) * (y3 - y0) - (y1 - y0) * (x3 - x0)) * y0 * s, ((x2 - x1) * (y0 - y1) - (y2 - y1) * (x0 - x1)) * y1 * s,
+       ((x3 - x2) * (y1 - y2) - (y3 - y2) * (x1 - x2)) * y2 * s, ((x0 - x3) * (y2 - y3) - (y0 - y3) * (x2 - x3)) * y3 * s,
+       ((x1 - x0) * (y3 - y0) - (y1 - y0) * (x3 - x0)) * y0 * s, ((x2 - x1) * (y0 - y1) - (y2 - y1) * (x0 - x1)) * y1 * s,
+       ((x3 - x2) * (y1 - y2) - (y3 - y2) * (x1 - x2)) * y2 * s, ((x0 - x3) * (y2 - y3) - (y0 - y3) * (x2 - x3)) * y3 * s] := by
+    simp only [pts, cornerNbrs, List.map_cons, List.map_nil, cornerJac, revolvePoints, List.cons_append, List.nil_append,
+      List.getD_cons_zero, List.getD_cons_succ, triple, rotateP, V3.zero, V3.dot, V3.add_x, V3.add_y, V3.add_z, V3.sub_x,
+      V3.sub_y, V3.sub_z, V3.smul_x, V3.smul_y, V3.smul_z, V3.cross_x, V3.cross_y, V3.cross_z]
+    refine List.cons_eq_cons.mpr ⟨by ring, List.cons_eq_cons.mpr ⟨by ring, List.cons_eq_cons.mpr ⟨by ring, List.cons_eq_cons.mpr ⟨by ring,
+      List.cons_eq_cons.mpr ⟨by ring, List.cons_eq_cons.mpr ⟨by ring, List.cons_eq_cons.mpr ⟨by ring, List.cons_eq_cons.mpr ⟨by ring, rfl⟩⟩⟩⟩⟩⟩⟩⟩
+  refine ⟨hJ, ?_⟩
+  rw [hJ]
+  intro j hj
+  simp only [List.mem_cons, List.not_mem_nil, or_false] at hj
+  rcases hj with h | h | h | h | h | h | h | h <;> subst h <;>
+    first
+      | exact mul_pos (mul_pos hA0 hy0) hs
+      | exact mul_pos (mul_pos hA1 hy1) hs
+      | exact mul_pos (mul_pos hA2 hy2) hs
+      | exact mul_pos (mul_pos hA3 hy3) hs
+
+/-- non-vacuity: the unit square one unit away from the axis, a quarter turn -/
+example : (0 : Rat) < (1 - 0) * (2 - 1) - (1 - 1) * (0 - 0) ∧
+    cornerNbrs.map (cornerJac (revolvePoints [⟨0, 1, 0⟩, ⟨1, 1, 0⟩, ⟨1, 2, 0⟩, ⟨0, 2, 0⟩] 0 1 ⟨1, 0, 0⟩ 1 V3.zero)) =
+      [1, 1, 2, 2, 1, 1, 2, 2] := by decide +kernel
+
 end CBV.C10
